@@ -30,6 +30,9 @@ func protocolConfigs(tier string) []ref.PConfig {
 			}
 		}
 	}
+	// one configuration over implicit TLS (the handshake is done by the connection handler before the greeting): what
+	// NewSession is shown of the TLS state is then the state of a completed handshake
+	out = append(out, ref.PConfig{ImplicitTLS: true, TLSAvail: true, MaxRcpt: 2, AllowInsecureAuth: false, AuthBackend: true})
 	return out
 }
 
@@ -37,7 +40,7 @@ func C03(tier string) int {
 	run := h.NewRun("C03", tier, "model_checking", "", 25*time.Minute)
 	cfgs := protocolConfigs(tier)
 	nAlpha := len(Alphabet(ref.PConfig{MaxBytes: 1}))
-	run.Rule = fmt.Sprintf("explicit-state breadth-first search over command histories: alphabet of %d abstract commands (valid / backend-rejected / malformed / out-of-order variants of HELO EHLO LHLO MAIL RCPT DATA BDAT RSET NOOP VRFY HELP AUTH STARTTLS QUIT, unknown, empty, mangled; DATA and BDAT with accepted, rejected, early-failing and panicking deliveries), %d configurations ({SMTP, LMTP plain backend, LMTP per-recipient backend} x recipient limit {0,2} x size limit {0,40} x TLS {none, available}). Every transition replays the shortest history reaching the state on a fresh REAL server in lock-step (inside a synctest bubble, real TLS handshake for STARTTLS) plus one command, and is compared with the reference protocol model (ref/protocol.go). States are deduplicated by (private-state dump of the real Conn, model state); search runs to the fixpoint. Merge audit: for every state one history that the key merged into it at the first level and the longest one that ever arrived are extended by two probe sequences and judged against the model too (counter merge_audit_histories). distinct = transitions; non-trivial = all (every transition executes the real handler).", nAlpha, len(cfgs))
+	run.Rule = fmt.Sprintf("explicit-state breadth-first search over command histories: alphabet of %d abstract commands (valid / backend-rejected / malformed / out-of-order variants of HELO EHLO LHLO MAIL RCPT DATA BDAT RSET NOOP VRFY HELP AUTH STARTTLS QUIT, unknown, empty, mangled; DATA and BDAT with accepted, rejected, early-failing and panicking deliveries), %d configurations ({SMTP, LMTP plain backend, LMTP per-recipient backend} x recipient limit {0,2} x size limit {0,40} x TLS {none, available} + one configuration over implicit TLS). Every transition replays the shortest history reaching the state on a fresh REAL server in lock-step (inside a synctest bubble, real TLS handshake for STARTTLS) plus one command, and is compared with the reference protocol model (ref/protocol.go). States are deduplicated by (private-state dump of the real Conn, model state); search runs to the fixpoint. Merge audit: for every state one history that the key merged into it at the first level and the longest one that ever arrived are extended by two probe sequences and judged against the model too (counter merge_audit_histories). distinct = transitions; non-trivial = all (every transition executes the real handler).", nAlpha, len(cfgs))
 	run.Assumptions = []string{
 		"counters that the code only compares with small constants are capped in the state key: len(recipients) at 3, bytesReceived ignored when no size limit is set",
 		"a nested MAIL may be processed or refused; DATA after a MAIL that declared BODY=BINARYMIME may be refused or processed (C03 does not speak about either)",
